@@ -172,10 +172,32 @@ def _gen_c(ctx, rnd):
             e.update(ok=True, r=enc.num(r), s=enc.num(s), selfok=selfok,
                      openssl=_openssl_verify(pub, r, s, (z % (1 << 256)).to_bytes(32, "big")) if 0 < r < n and 0 < s < n else False)
             add(e, cls)
+            last_sig.clear()
+            last_sig.update(d=d, z=z, r=r, s=s, used=[x for x in used if isinstance(x, int)])
             return r
         e.update(ok=False, r=[], s=[], selfok=False, openssl=False, exc=got.get("err", "bad-type"))
         add(e, cls)
         return None
+
+    last_sig = {}
+
+    def traceable(sg):
+        """is the signature's nonce (recovered from the signature, up to sign) one of its own consumed draws x, as x or x + 1?"""
+        if not sg or not 0 < sg["s"] < n:
+            return False
+        k = (sg["z"] + sg["r"] * sg["d"]) * pow(sg["s"], -1, n) % n
+        return any((x + off) % n in (k, n - k) for x in sg["used"] for off in (0, 1))
+
+    def pair_event(r1, s1, r2, s2, cls):
+        """Two signatures differing in key or message must not share r - unless both nonces are traceable to their own draws:
+        then the coincidence is the source's (the harness picked draws that one of the usual draw -> nonce mappings turns into
+        k and n - k, e.g. draws 0 and n - 2 under k = draw + 1)."""
+        if r1 is None or r2 is None:
+            return
+        if r1 == r2 and traceable(s1) and traceable(s2):
+            ctx.cov["c01_pairs_excused_by_source_coincidence"] = ctx.cov.get("c01_pairs_excused_by_source_coincidence", 0) + 1
+            return
+        add(dict(op="signpair", r1=enc.num(r1), r2=enc.num(r2)), cls)
 
     keys = [1, 2, n - 1, n - 2, 255, 1 << 64, (1 << 200) + 5, rnd.randrange(1, n)]
     zs = [0, 1, n - 1, n, n + 1, 2 ** 256 - 1, rnd.randrange(2 ** 256)]
@@ -202,17 +224,17 @@ def _gen_c(ctx, rnd):
     for cls, da, db in [("draw0-vs-draw1", [0, rnd.randrange(2, n - 1)], [1]), ("draw0-vs-draw-n-1", [0, rnd.randrange(2, n - 1)], [n - 1]),
                         ("draw00-vs-draw1", [0, 0, rnd.randrange(2, n - 1)], [1]), ("draw0-vs-draw2", [0, rnd.randrange(3, n - 2)], [2])]:
         r1 = sign_event(21, 300, da, "pair")
+        s1 = dict(last_sig)
         r2 = sign_event(22, 301, db, "pair")
-        if r1 is not None and r2 is not None:
-            add(dict(op="signpair", r1=enc.num(r1), r2=enc.num(r2)), cls)
+        pair_event(r1, s1, r2, dict(last_sig), cls)
     pairs = [("same-key-diff-msg", 11, 11, 100, 101), ("diff-key-same-msg", 11, 12, 100, 100), ("diff-both", 13, 14, 5, 6)]
     for cls, d1, d2, z1, z2 in pairs * (1 if quick else 10):
         k1 = rnd.randrange(2, n - 1)
         k2 = rnd.choice([x for x in (rnd.randrange(2, n - 1), rnd.randrange(2, n - 1)) if x not in (k1, n - k1)])
         r1 = sign_event(d1, z1, [k1], "pair")
+        s1 = dict(last_sig)
         r2 = sign_event(d2, z2, [k2], "pair")
-        if r1 is not None and r2 is not None:
-            add(dict(op="signpair", r1=enc.num(r1), r2=enc.num(r2)), cls)
+        pair_event(r1, s1, r2, dict(last_sig), cls)
     # bits.sig: messages, flags, both preimage modes
     msgs = [b"", b"a", bytes(range(256)) + b"x" * 44, rnd.randbytes(33)]
     kb = [(1).to_bytes(32, "big"), (n - 1).to_bytes(32, "big"), (255).to_bytes(32, "big"), rnd.randrange(1, n).to_bytes(32, "big")]
